@@ -317,12 +317,20 @@ func (mbox *MailboxView) Fetch(w *imapserver.FetchWriter, numSet imap.NumSet, op
 			return
 		}
 
+		// A UID set also matches messages this session hasn't been told
+		// about yet (their EXISTS is still queued): from the client's point
+		// of view they have no sequence number a FETCH response could carry
+		clientSeqNum := mbox.tracker.EncodeSeqNum(seqNum)
+		if clientSeqNum == 0 {
+			return
+		}
+
 		if markSeen {
 			msg.flags[canonicalFlag(imap.FlagSeen)] = struct{}{}
 			mbox.Mailbox.tracker.QueueMessageFlags(seqNum, msg.uid, msg.flagList(), nil)
 		}
 
-		respWriter := w.CreateMessage(mbox.tracker.EncodeSeqNum(seqNum))
+		respWriter := w.CreateMessage(clientSeqNum)
 		err = msg.fetch(respWriter, options)
 	})
 	return err
